@@ -361,6 +361,15 @@ Error BaseAssembler::embed_label_delta(const Label& label, const Label& base, si
   // If both labels are bound within the same section it means the delta can be calculated now.
   if (label_entry.is_bound() && base_entry.is_bound() && label_entry.section_id() == base_entry.section_id()) {
     uint64_t delta = label_entry.offset() - base_entry.offset();
+
+    // The delta is a signed quantity (the deferred path uses `OffsetType::kSignedOffset` as well) - it must fit.
+    if (data_size < 8u) {
+      int64_t limit = int64_t(1) << (data_size * 8u - 1u);
+      if (ASMJIT_UNLIKELY(int64_t(delta) < -limit || int64_t(delta) >= limit)) {
+        return report_error(make_error(Error::kInvalidDisplacement));
+      }
+    }
+
     writer.emit_value_le(delta, data_size);
   }
   else {
